@@ -430,3 +430,30 @@ PROPS["C09"] = dict(
         technique="property-based testing (rapid) with ground-truth labels at a multi-host loopback TLS simulator",
     ),
 )
+
+PROPS["C07"] = dict(
+    pkg="c07",
+    level="exploration",
+    rule=("worlds served by the loopback simulator (1..10 posts with acyclic ancestor chains ending in no parent or an unfetchable "
+          "parent, reply collections unpaged or paged with impostor and missing replies, 0..2 authors, audiences, body links to posts, "
+          "actors, missing and external targets, media; 1..3 actors with paged outboxes of Create/Announce activities incl. impostor and "
+          "missing ones, profile pictures, banners; 0..2 configured feeds) and key histories of 1..60 events: keymap keys, arbitrary "
+          "bytes 0..255, digit strings (incl. 0, 00, 20-digit numbers) ended by '.', Enter or any other key, ':open <URL or junk>', "
+          "':feed <known or unknown>', resizes; preload_amount 1..5. After every key the driver waits for exact quiescence (shim) and "
+          "compares history length and position, input mode, buffer, cursor position and the identity of the highlighted item with a "
+          "reference model of the documented keymap computed from the world's ground truth; undocumented second effects of a key that "
+          "cancels a selection are accepted either way. Every Update must return and the UI must settle (20 s). Non-trivial: the "
+          "history opens a further page and moves the cursor beyond the first preload window, or uses selection or command mode. "
+          "Distinct = distinct (world, events)."),
+    units=[
+        rapid("Prop", "TestProp", 4000, 160000, shards=(8, 16), config_toml=_NET, timeout=dict(quick=600, thorough=3000)),
+    ],
+    manifest=dict(
+        text=("Stateful model-based testing of the whole UI: generated key histories over generated worlds, compared after every "
+              "settled key with a reference model of the keymap that never looks at servitor's state. Sampled."),
+        design_ref="DESIGN.md §3 C07 and Appendix A",
+        note=("Trusted: the reference model (harness/vui/model.go) and the world generator's ground truth. Hook: package-internal "
+              "read-only shims in ui, history, feed (build tag verif, scratch copy only) for quiescence and cursor identity."),
+        technique="stateful model-based property testing (rapid) of key histories against a reference model",
+    ),
+)
